@@ -19,6 +19,7 @@ import (
 	"crypto/sha256"
 	"encoding/hex"
 	"fmt"
+	"sync"
 
 	"verifharness/internal/vh"
 
@@ -38,7 +39,29 @@ type recorder struct {
 	nodeOf []int
 	viOf   []int
 	// per message id: decoded facts used by the scenario drivers
-	info map[int]*sentInfo
+	mu     sync.Mutex
+	infos  map[int]*sentInfo
+	queued map[int]int // blocks handed to the queue, per node
+	qh     map[[2]int]bool
+}
+
+// assembled: node handed a block of height h to its queue
+func (rc *recorder) assembled(node int, h uint32) bool {
+	rc.mu.Lock()
+	defer rc.mu.Unlock()
+	return rc.qh[[2]int{node, int(h)}]
+}
+
+func (rc *recorder) inf(id int) *sentInfo {
+	rc.mu.Lock()
+	defer rc.mu.Unlock()
+	return rc.infos[id]
+}
+
+func (rc *recorder) nQueued(node int) int {
+	rc.mu.Lock()
+	defer rc.mu.Unlock()
+	return rc.queued[node]
 }
 
 type sentInfo struct {
@@ -66,7 +89,7 @@ func short(b []byte) string {
 }
 
 func newRecorder(tr *vh.Trace, res *vh.Result) *recorder {
-	return &recorder{tr: tr, res: res, info: map[int]*sentInfo{}}
+	return &recorder{tr: tr, res: res, infos: map[int]*sentInfo{}, queued: map[int]int{}, qh: map[[2]int]bool{}}
 }
 
 // attach is called once the cluster exists (before Start: nothing has been sent yet).
@@ -92,9 +115,24 @@ func (rc *recorder) attach(c *Cluster) error {
 
 func (rc *recorder) log(ev map[string]any) {
 	rc.tr.Emit(ev)
-	if ev["event"] == "send" && rc.c != nil {
+	if rc.c == nil {
+		return
+	}
+	switch ev["event"] {
+	case "send":
 		if id, ok := ev["id"].(int); ok {
 			rc.onSend(id)
+		}
+	case "queued":
+		// the ledger height of the validator at the moment it hands a block to its queue (NoSkip)
+		if node, ok := ev["node"].(int); ok {
+			rc.mu.Lock()
+			rc.queued[node]++
+			if h, ok := ev["h"].(uint32); ok {
+				rc.qh[[2]int{node, int(h)}] = true
+			}
+			rc.mu.Unlock()
+			rc.tr.Emit(map[string]any{"event": "queued_at", "node": node, "h": ev["h"], "lh": rc.c.Nodes[node].BC.BlockHeight()})
 		}
 	}
 }
@@ -233,9 +271,12 @@ func (rc *recorder) onSend(id int) {
 	}
 	vi := int(p.ValidatorIndex())
 	inf := &sentInfo{VI: vi, Type: m.Type, H: m.Height, View: int(m.View)}
-	rc.info[id] = inf
+	rc.mu.Lock()
+	rc.infos[id] = inf
+	rc.mu.Unlock()
 	ev := map[string]any{"event": "sent", "id": id, "node": m.From, "vi": vi, "type": m.Type, "h": m.Height, "view": int(m.View),
-		"inv": dig(e.Witness.InvocationScript), "content": "", "newview": 0, "node_vi": rc.viOf[m.From]}
+		"inv": dig(e.Witness.InvocationScript), "content": "", "newview": 0, "node_vi": rc.viOf[m.From],
+		"lh": rc.c.Nodes[m.From].BC.BlockHeight()}
 	switch p.Type() {
 	case dbft.CommitType:
 		ev["content"] = short(p.GetCommit().Signature())
